@@ -309,3 +309,11 @@ func envSetResult(name string, fail bool)           {}
 
 // containsSlash reports whether s contains '/'.
 func containsSlash(s string) bool { return strings.Contains(s, "/") }
+
+// nondetBytes returns a byte slice of length n with arbitrary content (symbolic memory under symgo).
+func nondetBytes(n int) []byte {
+	if n < 0 || n > 1<<26 {
+		return nil
+	}
+	return make([]byte, n)
+}
